@@ -89,6 +89,37 @@ claim('C16', 'explicit-state BFS to the fixpoint over operation histories on rea
       HIST_NOTE + ' Index relocation accepts both readings of "index"; pos_key == key only requires right content and order of the other keys.',
       'DESIGN.md 5 C16')
 
+claim('C03', 'deviation-bounded exhaustive enumeration of documents from an independent grammar-directed ZINC writer, parsed by hszinc',
+      'ref/refzinc.py renders 9 base grids (all value kinds, metadata, nested collections and grids) with a choice at every token: separator '
+      'blanks, N vs empty cell, _ digit groups, exponent forms, every escape form of every string/URI character, LF/CRLF, trailing blanks, '
+      'list/dict layouts, T/t and Z/z, fraction digits, final newline present/absent/blank line, 0-3 grids per document, str or bytes in '
+      'utf-8/utf-16/latin-1, single flag. ALL documents with at most d non-canonical choices are parsed by hszinc and compared with the neutral '
+      'value the writer spelled (d = 2 quick on the cheap grids, 2-3 thorough). Spellings are combined, which the fixed test documents never do.',
+      'Trusts ref/refzinc.py (self-tested against its own reader at start-up), ref/observe.py. The version header is always spelled plainly. '
+      'Forms DESIGN.md 8.4 marks as uncertain are never emitted.', 'DESIGN.md 5 C03')
+claim('C05', 'deviation-bounded exhaustive enumeration of documents from an independent Haystack-JSON writer, parsed by hszinc',
+      'ref/refjson.py renders 11 base grids with a choice at every value (n:1 / n:1.0 / n:1e0 / raw JSON number, both Remove spellings, times with or '
+      'without seconds/fraction, Z vs +00:00, bare vs s:-prefixed strings incl. strings that look like JSON or like other type prefixes, rows '
+      'missing/null/[], omitted null cells, object vs array) x input form (str, bytes, pre-decoded object) x single flag x 1-3 grids; all documents '
+      'with <= d deviations (2 quick, 3 thorough) must decode to the neutral value spelled, and a pre-decoded input object must be left unchanged.',
+      'Trusts ref/refjson.py and ref/observe.py.', 'DESIGN.md 5 C05')
+claim('C07', 'exhaustive enumeration of parsed documents pushed through every dump/transcode chain with purity, determinism and idempotence oracles',
+      'Every C03/C05 document with <= d spelling deviations (incl. grids declared 2.5, 3.0.0 and 4.0 and date-times without zone name) and every '
+      'catalogue payload in every skeleton slot dumped by hszinc in either format is parsed, then for both target formats: dumped twice (identical '
+      'text), observed before/after (grid unchanged), re-parsed (equal grid), dumped again (character-identical: normalisation idempotent), '
+      'transcoded to the other format and back (equal up to the JSON six-decimal rule). No exception is allowed anywhere in a chain.',
+      'Documents whose first parse fails are skipped (C01/C02/C03/C05 decide those). Trusts ref/observe.py and ref/neutral.py comparison.',
+      'DESIGN.md 5 C07')
+claim('C08', 'complete enumeration of code points and short metacharacter strings in every text-carrying position, both formats',
+      'Thorough: all 1,114,112 code points as one-character payloads in the four positions that have their own writer/reader code (string cell, URI '
+      'cell, reference display name, extended-string payload), the quick code-point set in the five container positions, every string of length <= 3 '
+      'over a 16-symbol metacharacter alphabet and 44 prefix/keyword look-alikes in all nine positions, ZINC and JSON. Each payload sits between two '
+      'sentinel cells in a two-grid document; the re-parsed document must have the same grids/rows/cells, unchanged neighbours and the identical '
+      'payload of the same kind. Quick: U+0000-U+02FF, both sides of every range boundary read from the regex literals of the anchored files, one '
+      'code point per Unicode category, surrogates and plane edges.',
+      'Packing many payloads per grid is for throughput only; every reported failure is re-established on a single-payload document.',
+      'DESIGN.md 5 C08')
+
 
 def main():
     props = [json.loads(l) for l in open(os.path.join(HERE, 'properties.jsonl'))]
